@@ -435,6 +435,7 @@ def _copy_check(ctx: Ctx, new: FuncInfo, gw: GuardWalk, ev: Any,
                construct="copy verified")
     # dtype request
     okd = False
+    mult_detail = ""
     dnode: ast.AST = new.node
     for c in ast.walk(new.node):
         if isinstance(c, ast.Call) and isinstance(c.func, ast.Name) and \
@@ -465,10 +466,35 @@ def _copy_check(ctx: Ctx, new: FuncInfo, gw: GuardWalk, ev: Any,
             has_ub = any(any("maxred" in repr(x.key()) for x in args_)
                          for args_ in facs)
             okd = has_ub and (mn == -mx or mn == Poly.const(0))
+            # the multiplier scales the whole max(upper_bound, n): it is a
+            # factor of the requested limit outside of the max
+            mname = next((p_ for p_ in new.params if "multiplier" in p_),
+                         None)
+            if okd and mname is not None and isinstance(mx, Poly):
+                def mentions(q: Any) -> bool:
+                    return mname in repr(q.key() if hasattr(q, "key") else q)
+                outside = False
+                inside = False
+                for mono, _c in mx.terms.items():
+                    for a_, _e in mono:
+                        is_max = (a_[0] == "app" and a_[1] == "max") or \
+                            a_[0] == "ite"
+                        if is_max and mentions(Poly.atom(a_)):
+                            inside = True
+                        elif not is_max and mentions(Poly.atom(a_)):
+                            outside = True
+                if inside and not outside:
+                    okd = False
+                    mult_detail = (
+                        f"the requested limit is {show(mx)[:120]}: "
+                        f"`{mname}` scales only one argument of the max, "
+                        "not max(upper_bound, n) as a whole - the storage "
+                        "type need not hold multiplier * upper_bound")
     ctx.ob("D5.3", new, dnode, okd,
            "dtype is requested for [-limit, limit] with limit = multiplier * "
            "max(upper_bound, n) and upper_bound >= every entry" if okd else
-           "dtype request does not cover the computed upper bound",
+           (mult_detail or
+            "dtype request does not cover the computed upper bound"),
            construct="dtype request")
 
 
